@@ -627,9 +627,26 @@ class Interp:
             else:
                 raise Unmodelled(f'attribute store on {base!r}')
         elif isinstance(t, (ast.Tuple, ast.List)):
-            vals = list(self._nt_seq(val))
-            for tt, vv in zip(t.elts, vals):
-                self.store(tt, vv)
+            seq_ = self._nt_seq(val)
+            if isinstance(seq_, (Opaque, Ref)) or (isinstance(seq_, Rec) and '__native__' not in seq_.f):
+                raise Unmodelled('unpacking of a symbolic value')
+            vals = list(seq_.f['__native__'] if isinstance(seq_, Rec) else seq_)
+            stars = [i_ for i_, e_ in enumerate(t.elts) if isinstance(e_, ast.Starred)]
+            if stars:
+                i_ = stars[0]
+                after = len(t.elts) - i_ - 1
+                if len(stars) > 1 or len(vals) < len(t.elts) - 1:
+                    raise ExcRaised(Ref('builtin:ValueError'))
+                for tt, vv in zip(t.elts[:i_], vals[:i_]):
+                    self.store(tt, vv)
+                self.store(t.elts[i_].value, list(vals[i_:len(vals) - after]))
+                for tt, vv in zip(t.elts[i_ + 1:], vals[len(vals) - after:]):
+                    self.store(tt, vv)
+            else:
+                if len(vals) != len(t.elts):
+                    raise ExcRaised(Ref('builtin:ValueError'))      # too many / not enough values to unpack
+                for tt, vv in zip(t.elts, vals):
+                    self.store(tt, vv)
         elif isinstance(t, ast.Subscript) and not isinstance(t.slice, ast.Slice):
             base = self.ev(t.value)
             if isinstance(base, (dict, list)):
@@ -1081,7 +1098,8 @@ class Interp:
                     return None
                 except TypeError:
                     raise ExcRaised(Ref('builtin:TypeError'))
-        if isinstance(fn, ast.Attribute) and isinstance(recv, (list, tuple, dict, set, frozenset, str, int, float, bytes)) \
+        if isinstance(fn, ast.Attribute) and (isinstance(recv, (list, tuple, dict, set, frozenset, str, int, float, bytes)) or (
+                recv is None and isinstance(self._safe_ev(fn.value), type(None)) and not isinstance(fn.value, ast.Name))) \
                 and not hasattr(recv, fn.attr) and fn.attr != 'next':
             raise ExcRaised(Ref('builtin:AttributeError'))
         if isinstance(fn, ast.Attribute) and fn.attr == 'next' and isinstance(recv, (list, tuple)):
